@@ -44,6 +44,24 @@ def step (line : String) : String :=
     match parseKeys? sub, parseKeys? seq with
     | some sub, some seq => showBool (unorderedContained sub seq)
     | _, _ => "bad-op"
+  | ["unordf", q, t] =>
+    match Wire.parseAnnotation? q, Wire.parseAnnotation? t with
+    | some q, some t =>
+      match isSubsequenceUnordered q t with
+      | .ok b => showBool b
+      | .error e => e.show
+    | _, _ => "bad-op"
+  | ["unordtext", q, t] =>
+    match Wire.parseAnnotation? q, Wire.parseAnnotation? t with
+    | some q, some t =>
+      match isSubsequenceUnorderedText q t with
+      | .ok b => showBool b
+      | .error e => e.show
+    | _, _ => "bad-op"
+  | ["literal", a] =>
+    match Wire.parseAnnotation? a with
+    | some a => if Static.rulesLiteral a then "1" else "0"
+    | none => "bad-op"
   | ["cov", t, acc, ign, qs] =>
     match Wire.parseAnnotation? t, parseBool? acc, parseBool? ign, parseAnnots? qs with
     | some t, some acc, some ign, some qs => showNats (coverage t qs acc ign)
